@@ -297,3 +297,12 @@ impl Drop for CancellationFlagGuard<'_> {
         self.0.runtime().reset_cancellation_flag();
     }
 }
+
+/// Verification hook: Kani proof harnesses for this module's private items (text lives outside
+/// this repository, in `$SALSA_VERIF_HARNESS_DIR`).
+#[cfg(kani)]
+#[allow(dead_code, unused_imports)]
+pub(crate) mod verif {
+    use super::*;
+    include!(concat!(env!("SALSA_VERIF_HARNESS_DIR"), "/storage.rs"));
+}
